@@ -127,6 +127,37 @@ def main(tier):
             if not np.array_equal(got, np.atleast_1d(want).ravel()):
                 fail(kind='positions', shape=list(shape), spec='slicer' + show(sl), flat_src=False,
                      numpy=np.atleast_1d(want).ravel().tolist(), openmdao=got.tolist())
+    # histories: ONE index object bound to a source shape, used, then re-bound to a second shape of the same rank
+    # (set_src_shape, as happens when a model is set up again with other variable shapes) must behave like a fresh one
+    by_rank = {1: [(3,), (5,)], 2: [(2, 3), (3, 2), (3, 4)], 3: [(2, 2, 3), (3, 1, 2)]}
+    for rank, shs in by_rank.items():
+        for s1, s2 in itertools.permutations(shs, 2):
+            src2 = np.arange(int(np.prod(s2))).reshape(s2)
+            for spec, kind in specs_for(s2, tier):
+                for flat_src in (False, True):
+                    if flat_src and (isinstance(spec, tuple) or spec is Ellipsis):
+                        continue
+                    try:
+                        fresh = indexer(spec, src_shape=s2, flat_src=flat_src)
+                        want = np.atleast_1d(fresh.shaped_array(flat=True)).ravel()
+                        want_shape = tuple(fresh.indexed_src_shape)
+                        ind = indexer(spec, flat_src=flat_src)
+                        ind.set_src_shape(s1)
+                        ind.shaped_array(flat=True)
+                    except Exception:
+                        continue          # the specification is not accepted for one of the shapes
+                    ev += 1
+                    try:
+                        ind.set_src_shape(s2)
+                        got = np.atleast_1d(ind.shaped_array(flat=True)).ravel()
+                        got_shape = tuple(ind.indexed_src_shape)
+                    except Exception as e:     # noqa
+                        fail(kind='history: re-binding to a second source shape raises', first_shape=list(s1), shape=list(s2), spec=show(spec), flat_src=flat_src, error=repr(e)[:200])
+                        continue
+                    nontrivial.add(('rebind', s1, s2, show(spec), flat_src))
+                    if not np.array_equal(got, want) or got_shape != want_shape:
+                        fail(kind='history: index object re-bound to a second source shape differs from a fresh one', first_shape=list(s1), shape=list(s2),
+                             spec=show(spec), flat_src=flat_src, fresh=want.tolist(), rebound=got.tolist())
     # array2slice: never changes the selected positions
     L = 12
     base = np.arange(L)
